@@ -258,12 +258,56 @@ pub fn load_known() -> Vec<KnownEntry> {
     out
 }
 
-/// Run `f` with panics caught and the default panic message suppressed.
+thread_local! {
+    static LAST_PANIC_AT: std::cell::RefCell<String> = const { std::cell::RefCell::new(String::new()) };
+}
+
+/// Replaces the default panic hook: the source location of every panic is remembered per thread
+/// (see `last_panic_at`), and the message is only printed when VERIF_LOUD is set.
 pub fn quiet_panics() {
-    if std::env::var("VERIF_LOUD").is_ok() {
-        return;
+    let loud = std::env::var("VERIF_LOUD").is_ok();
+    std::panic::set_hook(Box::new(move |info| {
+        let at = info.location().map(|l| format!("{}:{}", l.file(), l.line())).unwrap_or_default();
+        if loud {
+            eprintln!("panic at {}: {}", at, info);
+            eprintln!("{}", std::backtrace::Backtrace::force_capture());
+        }
+        LAST_PANIC_AT.with(|c| *c.borrow_mut() = at);
+    }));
+}
+
+/// Source location of the last panic raised on this thread.
+pub fn last_panic_at() -> String {
+    LAST_PANIC_AT.with(|c| c.borrow().clone())
+}
+
+/// Was the last panic of this thread raised by the harness itself (and not by the code under test
+/// or a library it called with bad arguments)?
+pub fn last_panic_in_harness() -> bool {
+    let at = last_panic_at();
+    at.is_empty() || at.contains("vcore/src") || at.contains("vcheck/src") || at.contains("ctrt/")
+}
+
+impl Ctx {
+    /// Runs `f`. A panic raised inside the code under test becomes a violation of kind `panic`
+    /// for the case described by `case`; a panic raised by the harness itself is passed on (and
+    /// ends the run as a machinery error).
+    pub fn guard<R>(&self, what: &str, case: impl FnOnce() -> Value, default: R, f: impl FnOnce() -> R) -> R {
+        match std::panic::catch_unwind(std::panic::AssertUnwindSafe(f)) {
+            Ok(r) => r,
+            Err(e) => {
+                if last_panic_in_harness() {
+                    std::panic::resume_unwind(e);
+                }
+                self.violation(
+                    "panic",
+                    &format!("{}: the code under test panicked at {}: {:?}", what, last_panic_at(), panic_msg(&e)),
+                    case(),
+                );
+                default
+            }
+        }
     }
-    std::panic::set_hook(Box::new(|_| {}));
 }
 
 pub fn panic_msg(e: &Box<dyn std::any::Any + Send>) -> String {
